@@ -20,6 +20,7 @@ import (
 	"fmt"
 	"io"
 	"math"
+	"sort"
 	"strconv"
 	"strings"
 )
@@ -117,8 +118,13 @@ func (m *Metrics) Write(w io.Writer) error {
 		ury := int(math.Ceil(g.BBox.URy))
 		line := fmt.Sprintf("C %d ; WX %.0f ; N %s ; B %d %d %d %d ;",
 			charCode, g.WidthX, name, llx, lly, urx, ury)
-		for succ, lig := range g.Ligatures {
-			line += fmt.Sprintf(" L %s %s ;", succ, lig)
+		succs := make([]string, 0, len(g.Ligatures))
+		for succ := range g.Ligatures {
+			succs = append(succs, succ)
+		}
+		sort.Strings(succs)
+		for _, succ := range succs {
+			line += fmt.Sprintf(" L %s %s ;", succ, g.Ligatures[succ])
 		}
 		if err := write("%s", line); err != nil {
 			return err
